@@ -356,6 +356,8 @@ func (cx *evalCtx) valToTV(v Val, t types.Type) (TV, error) {
 		return cx.run.load(cx.st, x), nil
 	case *Closure:
 		return cx.run.toTV(cx.st, x, t), nil
+	case *OneSided:
+		return cx.run.materialize(x), nil
 	}
 	return TV{}, fmt.Errorf("value not usable in a contract")
 }
@@ -383,6 +385,11 @@ func (cx *evalCtx) ident(name string) (TV, error) {
 	}
 	if cx.useVars && (!cx.inOld || cx.varsAfter) {
 		if v, ok := vs.vars[name]; ok {
+			if o, isO := v.(*OneSided); isO {
+				tv := cx.run.materialize(o)
+				vs.vars[name] = tv
+				return tv, nil
+			}
 			if _, isAddr := v.(*Addr); !isAddr {
 				return cx.valToTV(v, nil)
 			}
